@@ -181,7 +181,7 @@ def _pair_outcome(scope, a, b, snake):
     enum_vals = f"{a} {b}" if scope == "enum-values" else "X Y"
     fields = f"{a}: Int {b}: Int" if scope in ("input-fields", "response-keys") else "p: Int q: Int"
     sdl = f"type Query {{ item(f: F, {a if scope == 'variables' else 'v1'}: Int, {b if scope == 'variables' else 'v2'}: Int): Item }}\n" \
-          f"type Item {{ {fields} e: E }}\ninput F {{ {fields} }}\nenum E {{ {enum_vals} }}\n"
+          f"type Item {{ {fields} e: E sub: Item }}\ninput F {{ {fields} }}\nenum E {{ {enum_vals} }}\n"
     sel = f"{a} {b}" if scope == "response-keys" else "p q e" if scope != "input-fields" else "e"
     if scope == "variables":
         q = f"query Q(${a}: Int, ${b}: Int) {{ item({a}: ${a}, {b}: ${b}) {{ p }} }}"
@@ -273,12 +273,12 @@ def bounded_wire_names(tier, seed):
     import httpx
     from . import e2e
     fields = " ".join(f"{n}: String" for n in WIRE_NAMES)
-    sdl = (f"scalar Stamp\nenum E {{ from class _x Plain }}\ntype Item {{ {fields} e: E }}\ninput In {{ {fields} }}\n"
+    sdl = (f"scalar Stamp\nenum E {{ from class _x Plain }}\ntype Item {{ {fields} e: E sub: Item }}\ninput In {{ {fields} }}\n"
            f"type Query {{ item(i: In, {', '.join(n + ': String' for n in WIRE_NAMES)}, createdAfter: Stamp, from_stamp: Stamp): Item }}\n")
     var_defs = ", ".join(f"${n}: String" for n in WIRE_NAMES)
     var_use = ", ".join(f"{n}: ${n}" for n in WIRE_NAMES)
     q = (f"query Q($i: In, {var_defs}, $createdAfter: Stamp, $from_stamp: Stamp) {{ item(i: $i, {var_use}, createdAfter: $createdAfter, from_stamp: $from_stamp) "
-         f"{{ {' '.join(WIRE_NAMES)} e firstCopy: plain second_copy: plain }} }}")
+         f"{{ {' '.join(WIRE_NAMES)} e firstCopy: plain second_copy: plain left: sub {{ plain }} rightSide: sub {{ e }} }} }}")
     cases, fails = 0, []
     for snake in (True, False):
         cases += 1
@@ -294,7 +294,7 @@ def bounded_wire_names(tier, seed):
             m.par = lambda v: "par:" + str(v)
             sys.modules["pyvc_stamp"] = m
             sent = []
-            data = {"item": dict({n: "v-" + n for n in WIRE_NAMES}, e="from", firstCopy="c1", second_copy="c2")}
+            data = {"item": dict({n: "v-" + n for n in WIRE_NAMES}, e="from", firstCopy="c1", second_copy="c2", left={"plain": "lp"}, rightSide={"e": "class"})}
 
             def handler(request):
                 sent.append(json.loads(request.content))
@@ -335,6 +335,14 @@ def bounded_wire_names(tier, seed):
             for k2, v2 in (("firstCopy", "c1"), ("second_copy", "c2")):
                 if k2 not in falias or getattr(item, falias[k2]) != v2:
                     bad.append(f"two-aliases-of-one-field-both-readable: {k2}")
+            # two response keys of one object field with different selections: each keeps its own shape
+            try:
+                lp = getattr(getattr(item, falias["left"]), "plain", None)
+                re_ = getattr(getattr(item, falias["rightSide"]), "e", None)
+                if lp != "lp" or getattr(re_, "value", re_) != "class":
+                    bad.append(f"two-aliases-of-one-object-field-keep-their-own-selections: left.plain={lp!r} rightSide.e={re_!r}")
+            except Exception as e:      # noqa
+                bad.append(f"two-aliases-of-one-object-field-keep-their-own-selections: {type(e).__name__}: {str(e)[:120]}")
             en = g.module("enums").E
             if {x.value for x in en} != {"from", "class", "_x", "Plain"}:
                 bad.append("enum-values-keep-their-graphql-names")
